@@ -71,6 +71,11 @@ structure PSt where
   lastInsertLen : Nat := 0
 deriving Inhabited
 
+/-- the payload state `ensure_initialized` leaves: in catable mode every distance-cache entry is the placeholder
+`0x7ffffff0` (larger than any window, so no cached distance is ever valid) -/
+def PSt.init (catable : Bool) : PSt :=
+  if catable then { distCache := List.replicate 16 2147483632, savedDistCache := List.replicate 4 2147483632 } else {}
+
 /-- `WrapPosition` -/
 def wrapPosition (position : Nat) : Nat :=
   let result := position % U32
@@ -111,13 +116,16 @@ def extendLastCommand (e : EParams) (data : ByteArray) (mask lp : Nat) (dc0 : In
                        cmdPrefix := getLengthCode c.insertLen ((clf &&& 0x01ffffff) + (clf >>> 25)) (c.distPrefix &&& 0x3ff == 0) }, n)
     else some (c, 0)
 
-/-- the meta-block bytes as `WriteMetaBlockInternal` reads them from the ring buffer -/
-def mbBytes (ring : Bytes) (mask start : Nat) : Nat → Out Bytes
-  | 0 => .ok []
-  | n + 1 =>
-    match mbBytes ring mask start n with
-    | .ok l => (getAt ring ((start + n) &&& mask)).bind fun b => .ok (l ++ [b])
-    | o => o
+/-- the meta-block bytes as `WriteMetaBlockInternal` reads them from the ring buffer: `data[(pos + j) & mask]`, `j < n` -/
+def mbBytes (data : ByteArray) (mask : Nat) : Nat → Nat → Out Bytes
+  | _, 0 => .ok []
+  | pos, n + 1 =>
+    match byteAt data (pos &&& mask) with
+    | none => .panic
+    | some b => (mbBytes data mask (pos + 1) n).bind fun l => .ok (b :: l)
+
+/-- the slice as the list the writer models read -/
+def ringList (data : ByteArray) : Bytes := data.data.toList.map (·.toNat)
 
 /-- result of one invocation -/
 structure Res where
@@ -140,6 +148,47 @@ def initOrStitch (P : BasicP) (cells : Nat) (data : ByteArray) (mask : Nat) (h :
     | none => (Array.replicate cells 0, (⟨0, 0⟩ : Common))
     | some x => x
   (stitchToPreviousBlock (fun m ix t => BV.Hasher.Basic.store P data m ix t) 8 inputSize position mask t).map fun t => (t, c)
+
+/-- the tail of `encode_data` once it has decided to close the meta-block: the pending literals become a last insert-only
+command, the `!is_last && input_pos_ == last_flush_pos_` early return, `WriteMetaBlockInternal` with its size decision
+and distance-cache rollback, the bookkeeping reset.  `h cache cmds lastInsertLen numLiterals` = hasher, `dist_cache_`,
+`commands_[..num_commands_]`, `last_insert_len_`, `num_literals_` as `BrotliCreateBackwardReferences` left them. -/
+def writePart (e : EParams) (data : ByteArray) (mask lp lf ip : Nat) (isLast verdict : Bool) (saved : List Int)
+    (h : Tab × Common) (cache : List Int) (cmds : List Cmd) (lastInsertLen numLiterals : Nat) (w : Writer) : Out Res :=
+  let cmds := closeMetaBlock cmds lastInsertLen
+  let numLiterals := if lastInsertLen > 0 then numLiterals + lastInsertLen else numLiterals
+  if !isLast ∧ ip = lf then
+    .ok { st := { hasher := some h, distCache := cache, savedDistCache := saved, cmds := cmds, numLiterals := numLiterals,
+                  lastInsertLen := 0 }, emit := true, w := w, cmds := cmds }
+  else
+  let len := (ip - lf) % U32
+  let wlf := wrapPosition lf
+  let ring : Bytes := ringList data
+  let isLastW := if e.appendable then false else isLast
+  match mbBytes data mask wlf len with
+  | .panic => .panic
+  | .fuel => .fuel
+  | .ok mb =>
+  -- the compressed attempt (only made when `should_compress` says so and the block is not empty)
+  let att : Out (List Bool) :=
+    if len = 0 ∨ !verdict then .ok []
+    else
+      (if e.quality ≤ 2 then BV.MetaBlock.storeMetaBlockFast ring wlf len mask isLastW (BV.MetaBlock.distAlphabetSize e.large 0 0) cmds w
+       else BV.MetaBlock.storeMetaBlockTrivial ring wlf len mask isLastW (BV.MetaBlock.distAlphabetSize e.large 0 0) cmds w).bind
+        fun w' => .ok (w'.drop w.length)
+  match att with
+  | .panic => .panic
+  | .fuel => .fuel
+  | .ok att =>
+  match BV.Stored.writeMetaBlockInternal e.appendable e.catable isLast mb ⟨verdict, att⟩ w with
+  | .panic => .panic
+  | .fuel => .fuel
+  | .ok out =>
+    let stored := decide (len ≠ 0) && (!verdict || decide (len + 4 + (w.length >>> 3) < (w.length + att.length) >>> 3))
+    let dc := if stored then saved.take 4 ++ cache.drop 4 else cache
+    if wrapPosition ip < wrapPosition lp then .fuel
+    else .ok { st := { hasher := some h, distCache := dc, savedDistCache := dc.take 4, cmds := [], numLiterals := 0, lastInsertLen := 0 },
+               emit := true, w := out.fin, stored := stored, wrote := true, cmds := cmds }
 
 /-- `encode_data` for quality 2/3 from `let mut wrapped_last_processed_pos` on.
 `lp lf ip` = `last_processed_pos_`, `last_flush_pos_`, `input_pos_` (after the catable prelude), `data` = the slice
@@ -167,55 +216,18 @@ def encodeDataPayload (e : EParams) (dict : ByteArray → Nat → Option (List D
   match ext with
   | none => .panic
   | some (cmds0, n) =>
-  let bytes := bytes - n
-  let wlp := wlp + n
   match createBackwardReferences (basicOps P kindDict e.lbs (if e.useDict then dict else fun _ _ => none) data mask) e.cbr
-      bytes wlp h ps.distCache ps.lastInsertLen ps.numLiterals with
+      (bytes - n) (wlp + n) h ps.distCache ps.lastInsertLen ps.numLiterals with
   | none => .panic
   | some r =>
   let cmds := cmds0 ++ r.cmds
   let maxLength := maxMetablockSize e
-  let processed := ip - lf
-  let nextFits := decide (processed + (1 <<< e.lgblock) ≤ maxLength)
+  let nextFits := decide (ip - lf + (1 <<< e.lgblock) ≤ maxLength)
   let shouldFlush := decide (e.quality < 4 ∧ r.numLiterals + cmds.length ≥ 0x2fff)
   if !isLast ∧ !forceFlush ∧ !shouldFlush ∧ nextFits ∧ r.numLiterals < maxLength / 8 ∧ cmds.length < maxLength / 8 then
     if wrapPosition ip < wrapPosition lp then .fuel     -- `HasherReset` after a position wrap: not modelled
     else .ok { st := { ps with hasher := some r.h, distCache := r.cache, cmds := cmds, numLiterals := r.numLiterals,
                                lastInsertLen := r.lastInsertLen }, emit := false, w := w, cmds := cmds }
-  else
-  -- the pending literals become a last insert-only command
-  let cmds := closeMetaBlock cmds r.lastInsertLen
-  let numLiterals := if r.lastInsertLen > 0 then r.numLiterals + r.lastInsertLen else r.numLiterals
-  let st1 : PSt := { ps with hasher := some r.h, distCache := r.cache, cmds := cmds, numLiterals := numLiterals, lastInsertLen := 0 }
-  if !isLast ∧ ip = lf then .ok { st := st1, emit := true, w := w, cmds := cmds }
-  else
-  let len := (ip - lf) % U32
-  let wlf := wrapPosition lf
-  let ring : Bytes := data.toList.map (·.toNat)
-  let isLastW := if e.appendable then false else isLast
-  match mbBytes ring mask wlf len with
-  | .panic => .panic
-  | .fuel => .fuel
-  | .ok mb =>
-  -- the compressed attempt (only made when `should_compress` says so and the block is not empty)
-  let att : Out (List Bool) :=
-    if len = 0 ∨ !verdict then .ok []
-    else
-      let r := if e.quality ≤ 2 then BV.MetaBlock.storeMetaBlockFast ring wlf len mask isLastW (BV.MetaBlock.distAlphabetSize e.large 0 0) cmds w
-               else BV.MetaBlock.storeMetaBlockTrivial ring wlf len mask isLastW (BV.MetaBlock.distAlphabetSize e.large 0 0) cmds w
-      r.bind fun w' => .ok (w'.drop w.length)
-  match att with
-  | .panic => .panic
-  | .fuel => .fuel
-  | .ok att =>
-  match BV.Stored.writeMetaBlockInternal e.appendable e.catable isLast mb ⟨verdict, att⟩ w with
-  | .panic => .panic
-  | .fuel => .fuel
-  | .ok out =>
-    let stored := decide (len ≠ 0) && (!verdict || decide (len + 4 + (w.length >>> 3) < (w.length + att.length) >>> 3))
-    let dc := if stored then ps.savedDistCache.take 4 ++ r.cache.drop 4 else r.cache
-    if wrapPosition ip < wrapPosition lp then .fuel
-    else .ok { st := { hasher := some r.h, distCache := dc, savedDistCache := dc.take 4, cmds := [], numLiterals := 0, lastInsertLen := 0 },
-               emit := true, w := out.fin, stored := stored, wrote := true, cmds := cmds }
+  else writePart e data mask lp lf ip isLast verdict ps.savedDistCache r.h r.cache cmds r.lastInsertLen r.numLiterals w
 
 end BV.E2E
